@@ -24,7 +24,7 @@ RULE = (
 )
 ASSUMPTIONS = [
     "no continuous quantifier: each instance decided in integer / exact float arithmetic",
-    "L2: d in {2,3}; M<=5 (d=3: M<=3 quick, <=4 thorough with k<=1 at M=4); k<=3 (d=2), k<=2 (d=3)",
+    "L2: d in {2,3}; M<=5 (d=3: M<=3 quick, <=4 thorough with k<=1 at M=4); k<=4 (d=2), k<=2 (d=3)",
     "rank: filters with a single non-zero magnitude are reduced to their integer sign pattern and eliminated mod two primes (full rank mod p => full rank over Q); otherwise float64 SVD rank",
     "groups are passed as closed lists of signed permutation matrices (closure checked by the reference)",
 ]
@@ -72,7 +72,7 @@ def bounds(tier):
         "d": [2, 3],
         "groups": {d: {n: len(g) for n, g in groups_for(d, tier).items()} if tier == "quick" else f"{len(groups_for(d, tier))} groups (all <=2-generated subgroups)" for d in (2, 3)},
         "M": {"2": [1, 2, 3, 4, 5], "3": [1, 2, 3] if tier == "quick" else [1, 2, 3, 4]},
-        "k": {"2": [0, 1, 2, 3], "3": [0, 1, 2]},
+        "k": {"2": [0, 1, 2, 3, 4], "3": [0, 1, 2]},
         "p": [0, 1],
         "scale": ["normalize", "one"],
     }
@@ -84,14 +84,14 @@ def cases(tier, seed):
         grps = groups_for(d, tier)
         for name, grp in grps.items():
             Ms = [1, 2, 3, 4, 5] if d == 2 else ([1, 2, 3] if tier == "quick" else [1, 2, 3, 4])
-            ks = [0, 1, 2, 3] if d == 2 else [0, 1, 2]
+            ks = [0, 1, 2, 3, 4] if d == 2 else [0, 1, 2]
             for M in Ms:
                 for k in ks:
                     if d == 3 and M >= 4 and k > 1:
                         continue
-                    if len(grp) == 1 and M**d * d**k > 130:
+                    if len(grp) == 1 and M**d * d**k > (450 if d == 2 else 250):
                         continue  # trivial group: the family is the whole basis; keep it small
-                    if tier == "quick" and name not in ("B", "SO", "C2^d", "triv") and (M > 3 or k > 2):
+                    if tier == "quick" and d == 3 and name not in ("B", "SO", "C2^d", "triv") and (M > 3 or k > 1):
                         continue
                     for p in (0, 1):
                         size = M**d * d**k
